@@ -51,6 +51,7 @@ func c08conic(c *Ctx) {
 			// θ/N with N captured
 			var coneN types.Object
 			var thetaObj types.Object
+			var helperCall *ast.CallExpr
 			ast.Inspect(lit.Body, func(n ast.Node) bool {
 				b, ok := n.(*ast.BinaryExpr)
 				if !ok || b.Op != token.QUO {
@@ -63,10 +64,14 @@ func c08conic(c *Ctx) {
 				if _, isVar := nn.(*types.Var); !isVar || nn.Pkg() == nil || nn.Parent() == nn.Pkg().Scope() {
 					return true
 				}
-				// θ defined by Atan2
+				// θ defined by Atan2, directly or inside a helper that returns it
 				for _, d := range sc.defs[t] {
-					if call, ok := unparen(d).(*ast.CallExpr); ok && d != nil && isFuncIn(callee(info, call), "math", "Atan2") {
-						coneN, thetaObj = nn, t
+					if call, ok := unparen(d).(*ast.CallExpr); ok && d != nil {
+						if isFuncIn(callee(info, call), "math", "Atan2") {
+							coneN, thetaObj = nn, t
+						} else if h := callee(info, call); h != nil && c.P.Decl(h) != nil && callsAtan2(c, info, h) {
+							coneN, thetaObj, helperCall = nn, t, call
+						}
 					}
 				}
 				return true
@@ -76,6 +81,10 @@ func c08conic(c *Ctx) {
 			}
 			members++
 			cons := c.P.FuncName(ctor) + "#inverse-cone-sign"
+			if helperCall != nil {
+				c08conicHelper(c, info, cons, helperCall, coneN)
+				continue
+			}
 			var call *ast.CallExpr
 			for _, d := range sc.defs[thetaObj] {
 				if cl, ok := unparen(d).(*ast.CallExpr); ok && d != nil && isFuncIn(callee(info, cl), "math", "Atan2") {
@@ -155,4 +164,136 @@ func isSignVar(info *types.Info, sc *fnScope, lit *ast.FuncLit, o, coneN types.O
 		return true
 	})
 	return ok
+}
+
+func callsAtan2(c *Ctx, info *types.Info, h *types.Func) bool {
+	found := false
+	ast.Inspect(c.P.Decl(h).Body, func(n ast.Node) bool {
+		if call, ok := n.(*ast.CallExpr); ok && isFuncIn(callee(info, call), "math", "Atan2") {
+			found = true
+		}
+		return !found
+	})
+	return found
+}
+
+// c08conicHelper: the polar angle is computed in a helper h(…, flag) called with flag = (N ≥ 0) or
+// (N > 0); inside, atan2's arguments carry a factor that is +1 when the flag is true and −1 otherwise.
+func c08conicHelper(c *Ctx, info *types.Info, cons string, call *ast.CallExpr, coneN types.Object) {
+	h := callee(info, call)
+	hfd := c.P.Decl(h)
+	ps := paramVars(info, hfd.Type)
+	// which bool parameter receives the sign test of the cone constant?
+	var flag types.Object
+	for i, arg := range call.Args {
+		b, ok := unparen(arg).(*ast.BinaryExpr)
+		if !ok || i >= len(ps) || ps[i] == nil {
+			continue
+		}
+		if objOf(info, b.X) == coneN && (b.Op == token.GEQ || b.Op == token.GTR) {
+			if v := constOf(info, b.Y); v != nil && v.String() == "0" {
+				flag = ps[i]
+			}
+		}
+	}
+	if flag == nil {
+		c.Bad("C08.R5", cons, call.Pos(), "`%s` computes the polar angle in a helper that is not told the sign of the cone constant %s: for a negative constant the angle is off by π", src(call), coneN.Name())
+		return
+	}
+	sc := newFnScope(info, hfd.Body)
+	var at2 *ast.CallExpr
+	ast.Inspect(hfd.Body, func(n ast.Node) bool {
+		if cl, ok := n.(*ast.CallExpr); ok && isFuncIn(callee(info, cl), "math", "Atan2") {
+			at2 = cl
+		}
+		return true
+	})
+	// the sign variable: constant ±1 definitions, −1 exactly where the flag is false
+	signOK := func(o types.Object) bool {
+		ds := sc.defs[o]
+		if len(ds) == 0 {
+			return false
+		}
+		plus, minus := false, false
+		okAll := true
+		ast.Inspect(hfd.Body, func(n ast.Node) bool {
+			as, ok := n.(*ast.AssignStmt)
+			if !ok {
+				if vs, ok := n.(*ast.ValueSpec); ok {
+					for i, nm := range vs.Names {
+						if info.Defs[nm] == o && i < len(vs.Values) {
+							if v := constOf(info, vs.Values[i]); v != nil && v.String() == "1" {
+								plus = true
+							}
+						}
+					}
+				}
+				return true
+			}
+			for i, l := range as.Lhs {
+				if objOf(info, l) != o || i >= len(as.Rhs) {
+					continue
+				}
+				v := constOf(info, as.Rhs[i])
+				if v == nil {
+					okAll = false
+					continue
+				}
+				// under which condition on the flag?
+				cond := 0 // +1: flag true, -1: flag false, 0: unconditional
+				for _, anc := range enclosing(hfd.Body, as) {
+					is, ok := anc.(*ast.IfStmt)
+					if !ok {
+						continue
+					}
+					inBody := containsNode(is.Body, as)
+					e := unparen(is.Cond)
+					neg := false
+					if u, ok := e.(*ast.UnaryExpr); ok && u.Op == token.NOT {
+						e, neg = unparen(u.X), true
+					}
+					if objOf(info, e) == flag {
+						if inBody != neg {
+							cond = 1
+						} else {
+							cond = -1
+						}
+					}
+				}
+				switch v.String() {
+				case "1":
+					if cond == -1 {
+						okAll = false
+					}
+					plus = true
+				case "-1":
+					if cond != -1 {
+						okAll = false
+					}
+					minus = true
+				default:
+					okAll = false
+				}
+			}
+			return true
+		})
+		return okAll && plus && minus
+	}
+	n := 0
+	if at2 != nil {
+		for _, arg := range at2.Args {
+			if m, ok := unparen(arg).(*ast.BinaryExpr); ok && m.Op == token.MUL {
+				for _, f := range []ast.Expr{m.X, m.Y} {
+					if o := objOf(info, f); o != nil && signOK(o) {
+						n++
+					}
+				}
+			}
+		}
+	}
+	if n == 2 {
+		c.OK("C08.R5", cons, call.Pos(), "θ comes from %s, which takes atan2 of coordinates multiplied by ±1 following the flag %s = (%s ≥/> 0)", h.Name(), flag.Name(), coneN.Name())
+	} else {
+		c.Bad("C08.R5", cons, call.Pos(), "the helper %s takes the polar angle without mirroring the coordinates when the cone constant %s is negative", h.Name(), coneN.Name())
+	}
 }
